@@ -36,7 +36,7 @@ func zzC16_limits() {
 	if symParam("fifo", 0) == 1 {
 		symAssume(total == 2 && perEP == 1)
 	}
-	paths := []string{"/a", "/b"}
+	paths := []string{"/", "/b"} // the root resource (no Uri-Path option at all) is a target path like any other
 	npaths := symParam("paths", 1)
 	reqs := make([]*zzReq, R)
 	inflight := 0
